@@ -119,6 +119,16 @@ CHECKS = [
               'involutions. Tie: exact runs of the real bilform; floats: exchange and dyadic shifts bitwise on the real code. '
               'Invariance under motions of the curve (which change the panel decomposition) is searched to 1e-7 scaled.',
          note='rotation/reflection invariance for the true kernel holds only up to quadrature error'),
+    dict(id='C08', design_ref='DESIGN.md section 6 / C08', category='proof',
+         technique='Lean 4 theorems (parametrisations, Jacobians, linearity, kernel branches, rule exactness) + polynomial-kernel execution of the real linform',
+         text='Partial. Proved: for the cell having the boundary segment as an edge the squared distance handed to the '
+              'kernel is h^2((x-y)^2+z^2) (so the singular line of the Duffy-identical rule is the singular set), the '
+              'vertex-touching parametrisations meet in the shared vertex only, Jacobians h^3 resp. diam^2 (d-c), the load is '
+              'linear in u0, both branches of the generated time kernel, exactness of the 3-D Duffy rules on polynomials '
+              '(C15). Tie: the REAL linform with exp1 replaced by polynomials equals the closed-form polynomial integral over '
+              'domain x segment to 1e-10 for dyadic segments on all three domains (cell classes, Jacobians, tiling). The '
+              '1e-5 accuracy for the true kernel is searched against the closed-form potentials.',
+         note='accuracy for the non-polynomial kernel E1 is not a theorem; the tie is in floats (domain mesh vertices are floats) with tolerance 1e-10'),
 ]
 for p in _PENDING:
     if p not in [c['id'] for c in CHECKS]:
